@@ -81,6 +81,7 @@ func (c *CancelCtx) cancel(err error) {
 	}
 	c.err = err
 	zzrt.HBRelease(c)
+	zzrt.ClosePoint()
 	zzrt.MarkClosed(c.done)
 	close(c.done)
 	for _, ch := range c.children {
